@@ -72,7 +72,8 @@ func (l *evlog) snapshot() []event {
 type request struct {
 	ID   string
 	Typ  string // "" (join) | unavailable (leave)
-	Addr string
+	Addr string // the to attribute: where the request was actually sent
+	El   *xmltree.Node
 }
 
 type world struct {
@@ -114,7 +115,7 @@ func newWorld() (*world, error) {
 	w.loop = sess.RunPeerLoop(p.Peer, func(n *xmltree.Node) {
 		w.mu.Lock()
 		if n.Name.Local == "presence" && n.Attr("to") != "" && n.Attr("type") != "error" {
-			r := request{ID: n.Attr("id"), Typ: n.Attr("type"), Addr: n.Attr("to")}
+			r := request{ID: n.Attr("id"), Typ: n.Attr("type"), Addr: n.Attr("to"), El: n}
 			w.reqs[r.ID] = r
 			w.mu.Unlock()
 			w.log.add(event{Ev: "seen", Addr: r.Addr, ID: r.ID, Typ: r.Typ})
@@ -404,6 +405,8 @@ type call struct {
 	ch     *muc.Channel // the channel the call ran on / returned
 	gid    string       // goroutine running the call
 	reqID  string       // id given to the call's presence: identifies its request at the room
+	opts   *joinOpts
+	checked bool
 }
 
 func classifyErr(err error) (class, cond string) {
